@@ -14,7 +14,9 @@ type fcase struct {
 	Pos  int
 }
 
-func (f fcase) String() string { return fmt.Sprintf("%s/%s/n=%d/pos=%d", f.Site, f.Kind, f.Size, f.Pos) }
+func (f fcase) String() string {
+	return fmt.Sprintf("%s/%s/n=%d/pos=%d", f.Site, f.Kind, f.Size, f.Pos)
+}
 
 var faultSites = []string{
 	"lookup", "check", "isunlocked-error", "locked-unlock-error", "locked-no-passphrase", "sealed-account",
